@@ -63,5 +63,5 @@ MANIFEST = {
             "serialised aggregate state through a cfg-gated export). Crypto (CMS validation of RFC 8181 messages) is not part of "
             "this check (C12). Hash-map order is canonicalised by sorting on both sides.",
     "technique": "Lean 4 proof (induction over elements/requests, invariants, iff-characterisations, witnesses by decide) + "
-                 "correspondence check with oracle on the implementation's trace + source translator (order of the persisted store calls of remove_publisher; removal_recoverable over the generated order; body of CurrentObjects::verify_delta_applies = the model's verifyDelta: gen_verify_delta_applies_eq_model)",
+                 "correspondence check with oracle on the implementation's trace + source translator (order of the persisted store calls of remove_publisher; removal_recoverable over the generated order; body of CurrentObjects::verify_delta_applies = the model's verifyDelta: gen_verify_delta_applies_eq_model; body of CurrentObjects::apply_delta = the model's applyDelta: gen_apply_delta_eq_model)",
 }
